@@ -122,7 +122,7 @@ def _decoders(c, bulk, relevant=None):
 
 
 def is_panic(ev, v):
-    return ev.get("res") == "panic" or ev.get("panics", 0) > 0
+    return ev.get("res") == "panic" or ev.get("panics", 0) > 0 or ev.get("verify") == "panic"
 
 
 def c03(c):
@@ -179,9 +179,12 @@ def system_key(ev, v):
 def _mc_falcon(c, names_pass, names_broken, vac=()):
     mc = McOutcome()
     runs = [dict(module="MC_Falcon", cfg="MC_Falcon_" + n, workers=16, xmx="8g", timeout=2400) for n in names_pass]
-    runs += [dict(module="MC_Falcon", cfg="MC_Falcon_" + n, workers=8, expect="violation", timeout=1200) for n in names_broken]
-    runs += [dict(module="MC_Falcon", cfg="MC_Falcon_vac_" + n, workers=8, expect="violation", timeout=1200) for n in vac]
     model_check(mc, runs)
+    # broken variants and vacuity guards: small, start-up dominated -> concurrently with few workers each
+    runs = [dict(module="MC_Falcon", cfg="MC_Falcon_" + n, workers=3, expect="violation", timeout=1200, xmx="2g", name="MC_Falcon_" + n) for n in names_broken]
+    runs += [dict(module="MC_Falcon", cfg="MC_Falcon_vac_" + n, workers=3, expect="violation", timeout=1200, xmx="2g", name="MC_Falcon_vac_" + n) for n in vac]
+    if runs:
+        model_check(mc, runs, parallel=6)
     c.add_mc(mc)
 
 
@@ -193,6 +196,13 @@ def c08(c):
                      "variants -- no salt repeated in the whole history, every salt byte position takes >= 200 distinct values, signatures of one "
                      "message differ. distinct_nontrivial = number of history predicates and event classes evaluated")
     _mc_falcon(c, ["code"] + (["deep"] if thorough else []), ["shared", "saltmsg", "redraw2"], vac=["NeverIssued", "NeverRetried"])
+    # unbounded calls / retries / positions: inductive invariant of the entropy abstraction, discharged by Apalache
+    am = McOutcome()
+    runner.apalache(am, os.path.join(runner.SPEC, "apalache"), "SaltModel.tla",
+                    [("Init => IndInv", ["--cinit=ConstInit", "--init=Init", "--inv=IndInv", "--length=0"]),
+                     ("IndInv /\\ Next => IndInv'", ["--cinit=ConstInit", "--init=IndInit", "--inv=IndInv", "--length=1"]),
+                     ("IndInv => FreshOnReturn", ["--cinit=ConstInit", "--init=IndInit", "--inv=FreshOnReturn", "--length=0"])])
+    c.add_mc(am)
     drive("c08", ["--tier", c.tier, "--seed", c.seed, "--out", c.work], timeout=7200)
     to = validate_traces("Trace_System", traces_in(c.work, "system"), parallel=2, sparse=True, xmx="12g", timeout=7200)
     c.add_traces(to, keyfn=system_key, relevant=lambda ev, v: ev.get("ev") == "sign" or ev.get("name", "").startswith(("salt", "same-msg")))
@@ -337,7 +347,12 @@ def c06(c):
     mc = McOutcome()
     model_check(mc, [dict(module="MC_KeyCodec", cfg="MC_KeyCodec", workers=16)])
     c.add_mc(mc)
-    _decoders(c, 3000000 if thorough else 40000)
+    # C06 is one-directional: what from_bytes ACCEPTS must be canonical (and the listed malformed classes must be rejected).  A decoder
+    # that rejects more than the specification's (e.g. an added validity check on secret keys) does not violate it; rejected honest
+    # encodings are C05's business.  So: wrong accepts, non-identical re-encodings and rejected honest objects are violations here;
+    # other over-strict rejections are notes.
+    _decoders(c, 3000000 if thorough else 40000,
+              relevant=lambda ev, v: ev.get("res") == "ok" or ev.get("tag") == "honest" or ev.get("noncanonical", 0) > 0 or ev.get("res") == "panic")
     c.assumptions += ["signature body canonicity is decided at verification time (C07/C02); from_bytes checks the framing only, as the property's "
                       "observable 'x.to_bytes() = b' requires"]
 
@@ -358,6 +373,15 @@ def c09(c):
     drive("c09", ["--tier", c.tier, "--seed", c.seed, "--out", c.work, "--shards", 14])
     to = validate_traces("Trace_Sampler", traces_in(c.work, "sampler"), parallel=PAR, timeout=7200)
     c.add_traces(to, keyfn=generic_key)
+    # the sampler as used inside real sign calls (tap events of ffSampling's leaf calls): float glue and verdicts, leaf widths in range
+    drive("signsampler", ["--tier", c.tier, "--seed", c.seed, "--out", c.work, "--shards", 14])
+    to = validate_traces("Trace_SignSampler", traces_in(c.work, "signsampler"), parallel=PAR, timeout=7200)
+    c.add_traces(to, keyfn=generic_key, label="in-sign")
+    if thorough:
+        # key generation's gen_poly = sums of 4096/n sampler outputs on one stream (2 minutes of TLC per polynomial)
+        drive("genpoly", ["--tier", c.tier, "--seed", c.seed, "--out", c.work, "--shards", 6])
+        to = validate_traces("Trace_Sampler", traces_in(c.work, "genpoly"), parallel=6, timeout=7200)
+        c.add_traces(to, keyfn=generic_key, label="genpoly")
     drive("c09-hist", ["--tier", c.tier, "--seed", c.seed, "--out", c.work, "--samples", 5120000 if thorough else 204800], timeout=7200)
     to = validate_traces("Trace_Stats", traces_in(c.work, "hist"), parallel=1)
     c.add_traces(to, keyfn=generic_key, label="stats")
